@@ -261,3 +261,44 @@ def threshold_boundary(w):
     blk = Blk(bytes(rng.getrandbits(8) for _ in range(32)), bytes(rng.getrandbits(8) for _ in range(32)))
     kk, out = _run(w, M, 2, [0], [a, T - a], [True], blk, [])
     w.claim(f'T={T} a={a}: accepted iff 3a > 2T', (kk == 'ok') == (3 * a > 2 * T))
+
+
+@obligation('C12.verify_sign', 'C12', cases=[{'accept': a} for a in (True, False)], assumes=[T6],
+            fuc=['pytoniq_core.crypto.signature.verify_sign'],
+            descr='the contract of verify_sign that C12.accept_iff relies on, as an obligation of its own: with PyNaCl\'s VerifyKey '
+                  'replaced by a recording model, the helper hands EXACTLY the given key, message and signature (the same objects: no '
+                  'concatenation, truncation or re-encoding, so the signature/message boundary is the caller\'s) to the primitive, once, '
+                  'and returns True iff the primitive accepts, False iff it raises BadSignatureError')
+def verify_sign(w, accept):
+    import harness.C20 as C20
+    C20.verify(w, accept)
+
+
+@obligation('C12.forged', 'C12', kind='bounded', samples=60, fuc=[F + 'check_block_signatures', 'pytoniq_core.crypto.signature.verify_sign'],
+            descr='bounded, native, real Ed25519: three validators of equal weight, two genuine signatures (exactly 2/3: not enough) and a '
+                  'third entry by the third validator that is NOT a signature over the block payload: a genuine signature over X ++ payload '
+                  'followed by X (the combined form of another message), the genuine signature extended / truncated, a signature '
+                  'over another block, the empty string - in every position of the list: always refused')
+def forged(w):
+    M = importlib.import_module('pytoniq_core.proof.check_proof')
+    rng = w.rng
+    keys = _native_keys(3)
+    pks = [k.verify_key.encode() for k in keys]
+    blk = Blk(bytes(rng.getrandbits(8) for _ in range(32)), bytes(rng.getrandbits(8) for _ in range(32)))
+    msg = bytes.fromhex('706e0bc5') + blk.root_hash + blk.file_hash
+    x = bytes(rng.getrandbits(8) for _ in range(rng.choice([1, 29, 64, 100])))
+    good = keys[2].sign(msg).signature
+    how = rng.choice(['combined_prefix', 'combined_suffix', 'extended', 'truncated', 'other_block', 'empty', 'genuine'])
+    bad = {'combined_prefix': keys[2].sign(x + msg).signature + x, 'combined_suffix': keys[2].sign(msg + x).signature,
+           'extended': good + x, 'truncated': good[:63], 'other_block': keys[2].sign(msg[:-1] + bytes([msg[-1] ^ 1])).signature,
+           'empty': b'', 'genuine': good}[how]
+    w.used['how'] = how
+    nodes = [Node(pks[i], 10) for i in range(3)]
+    sigs = [{'node_id_short': M.calculate_node_id_short(pks[i]).hex(), 'signature': keys[i].sign(msg).signature} for i in range(2)]
+    sigs.insert(rng.randrange(0, 3), {'node_id_short': M.calculate_node_id_short(pks[2]).hex(), 'signature': bad})
+    k, out = call(M.check_block_signatures, nodes, sigs, blk)
+    if how == 'genuine':
+        w.claim('three genuine signatures are accepted', k == 'ok')
+    else:
+        w.claim(f'{how}: a third entry that is not a signature over the block payload is refused', k == 'raise')
+        w.claim(f'{how}: refusal is an API error ({type(out).__name__})', k != 'raise' or is_error(out))
